@@ -95,11 +95,15 @@ func (d *Device) handleKEYEvent(ie *input.InputEvent) {
 func (d *Device) handleABSEvent(ie *input.InputEvent) {
 	analog, analogOk := d.config.KeyMappings[d.mapping].Analog[ie.Source.Name][ie.Event.Code]
 
+	// emulated keys are tracked per axis of a sub-handler: two sub-handlers of one device may report the same axis code
+	identifier := fmt.Sprintf("%s/%d", ie.Source.Name, ie.Event.Code)
+	identifierNeg := identifier + "_neg"
+
 	if !analogOk || analog.MappingType != config.AnalogKeySim {
 		// workaround for the case where mapping has been changed while this axis was still sounding an emulated key
 		// and new mapping doesn't emulate keys with it: nothing else would release that note anymore
-		d.AnalogNoteOff(fmt.Sprintf("%d", ie.Event.Code), ie)
-		d.AnalogNoteOff(fmt.Sprintf("%d_neg", ie.Event.Code), ie)
+		d.AnalogNoteOff(identifier, ie)
+		d.AnalogNoteOff(identifierNeg, ie)
 	}
 
 	if !analogOk {
@@ -251,9 +255,6 @@ func (d *Device) handleABSEvent(ie *input.InputEvent) {
 		if !canBeNegative {
 			value = value*2 - 1.0
 		}
-
-		identifier := fmt.Sprintf("%d", ie.Event.Code)
-		identifierNeg := fmt.Sprintf("%d_neg", ie.Event.Code)
 
 		switch {
 		case value <= -0.5:
